@@ -541,3 +541,43 @@ pub fn main() {
         },
     );
 }
+
+
+/// bytes -> case (coverage-guided fuzzing front end)
+pub fn decode(data: &[u8]) -> Case {
+    let lens: &[usize] = &[0, 1, 2, 3, 4, 5, 6, 7, 8, 9, 10, 11, 12, 16, 31, 32, 33, 64, 100];
+    let g = |i: usize| data.get(i).copied().unwrap_or(0) as usize;
+    let n = lens[g(0) % lens.len()];
+    let front = g(1) % (n + 1);
+    let back = g(2) % (n - front + 1);
+    let len = n - front - back;
+    let arg = match g(4) % 6 {
+        0 => g(5) % (len + 3),
+        1 => len,
+        2 => len + 1,
+        3 => usize::MAX,
+        _ => g(5) % 4,
+    };
+    let op = match g(3) % 24 {
+        0 => Op::IterDrop,
+        1 => Op::Count,
+        2 => Op::Last,
+        3 => Op::FoldDrop,
+        4 => Op::RFoldDrop,
+        5 => Op::ForLoopDrop,
+        6 => Op::CloneDrop,
+        7..=10 => Op::Nth(arg),
+        11..=14 => Op::NthBack(arg),
+        15 => Op::ArrDrop,
+        16 => Op::CollectShort(g(5) % n.max(1)),
+        17 => Op::CollectLong,
+        18 => Op::Builder(g(5) % (n + 1)),
+        19 => Op::Intrusive(g(5) % (n + 1)),
+        20 => Op::Consumer(g(5) % (n + 1)),
+        21 => Op::MapDrop(0),
+        22 => Op::ZipDrop((g(5) % 3) as u8),
+        _ => Op::FoldArrDrop(0),
+    };
+    let (front, back) = if g(3) % 24 >= 15 { (0, 0) } else { (front, back) };
+    Case { zst: g(6) % 5 == 0, n, front, back, op, e: g(7) % (2 * n + 2) }
+}
